@@ -43,6 +43,8 @@ class PolyInterp:
             raise Uninterp('store target')
 
     def ev(self, e):
+        if isinstance(e, ast.Constant) and (e.value is None or isinstance(e.value, (str, bool))):
+            return ('opaque', repr(e.value))          # non-numeric constants (log texts, flags): usable only if never combined
         if isinstance(e, ast.Constant) and isinstance(e.value, (int, float)) and not isinstance(e.value, bool):
             return Poly.const(Fraction(str(e.value)))
         if isinstance(e, ast.Name):
